@@ -1,5 +1,5 @@
 """Correspondence for the source-to-Lean translator (gen/py2lean.py) and its run-time library (lean/Asn1/PyLite.lean):
-the *translation* of a function (driver ops KTAG, KLEN, KTOBYTES, KOIDENC, KOIDDEC, KTIME, KREAL, KREALDEC, KDECLEN, KDECTAG, KOCTCHUNK, KSETOF, KCERBOOLENC, KBERBOOLENC, KINTENC, KWREAD, KWMARK, KREADTURN, KEOSTURN, PYBIO, KCRANGE, KCSIZE, KCSINGLE, KCALPHA, KCERBOOL, KWRAP, KINTDEC, KBITSDEC, KBITSFROM, KNULLDEC, KBERBOOLDEC; PYFROMBYTES) and the function itself in /repo are
+the *translation* of a function (driver ops KTAG, KLEN, KTOBYTES, KOIDENC, KOIDDEC, KTIME, KREAL, KREALDEC, KDECLEN, KDECTAG, KOCTCHUNK, KSETOF, KCERBOOLENC, KBERBOOLENC, KINTENC, KWREAD, KWMARK, KREADTURN, KEOSTURN, PYBIO, KCRANGE, KCSIZE, KCSINGLE, KCALPHA, KCERBOOL, KWRAP, KINTDEC, KBITSDEC, KBITSFROM, KNULLDEC, KBERBOOLDEC, KREQSEEN; PYFROMBYTES) and the function itself in /repo are
 run on the same arguments; the Python builtins PyLite transcribes (PYOP) are compared with CPython.
 
 A disagreement means the translator or PyLite misrepresents the code (machinery fault to repair) - it is reported as a
@@ -47,7 +47,7 @@ def _py(f, *a, **kw):
     return ('ok', r)
 
 
-def check(rep, drv, seed, n=400, which=('encodeTag', 'encodeLength', 'toBytes', 'oidEncode', 'oidDecode', 'timeCanon', 'realBin', 'realDec', 'decodeLength', 'cerBool', 'wrapTags', 'intDecode', 'decodeTag', 'octetChunks', 'constraintLeaves', 'setOfSort', 'streamWrapper', 'readTurn', 'bitsDecode', 'nullDecode', 'berBoolDec')):
+def check(rep, drv, seed, n=400, which=('encodeTag', 'encodeLength', 'toBytes', 'oidEncode', 'oidDecode', 'timeCanon', 'realBin', 'realDec', 'decodeLength', 'cerBool', 'wrapTags', 'intDecode', 'decodeTag', 'octetChunks', 'constraintLeaves', 'setOfSort', 'streamWrapper', 'readTurn', 'bitsDecode', 'nullDecode', 'berBoolDec', 'requiredSeen')):
     """returns number of cases compared"""
     from pyasn1.codec.ber import encoder as benc, decoder as bdec
     from pyasn1.compat import integer
@@ -810,6 +810,42 @@ def check(rep, drv, seed, n=400, which=('encodeTag', 'encodeLength', 'toBytes', 
         bodies = [bytes([k]) for k in range(256)] + [b'', b'\x00\x00', b'\x00\x01', b'\x80\x00', b'\xff\xff', b'\x00' * 9 + b'\x01']
         for body in bodies[:max(40, min(n, len(bodies)))] if n < len(bodies) else bodies:
             cmp_('berBoolDec', 'KBERBOOLDEC ' + ' '.join(str(b) for b in body), _py(real_bo, body))
+    if 'requiredSeen' in which:
+        from pyasn1.type import namedtype as _nt
+        for i in range(min(n, 150)):
+            k = rng.randrange(1, 6)
+            kinds_ = [rng.choice('rod') for _ in range(k)]
+            fields = []
+            for j, kd in enumerate(kinds_):
+                ty = univ.Integer().subtype(implicitTag=ptag.Tag(ptag.tagClassContext, ptag.tagFormatSimple, j))
+                if kd == 'r':
+                    fields.append(_nt.NamedType('m%d' % j, ty))
+                elif kd == 'o':
+                    fields.append(_nt.OptionalNamedType('m%d' % j, ty))
+                else:
+                    fields.append(_nt.DefaultedNamedType('m%d' % j, ty.clone(7)))
+            cls = rng.choice([univ.Set, univ.Sequence])
+            spec = cls(componentType=_nt.NamedTypes(*fields))
+            present = [j for j in range(k) if rng.random() < 0.7]
+            order = list(present)
+            if cls is univ.Set:
+                rng.shuffle(order)
+            if cls is univ.Sequence:
+                # a SEQUENCE decoder stops being positional once a mandatory member is stepped over: keep to prefixes-with-holes
+                # only among OPTIONAL / DEFAULT members, and drop mandatory members only from the end
+                while any(kinds_[j] == 'r' and j not in present and any(x > j for x in present) for j in range(k)):
+                    present = [x for x in present if x < max(j for j in range(k) if kinds_[j] == 'r' and j not in present)]
+                order = list(present)
+            indef = rng.random() < 0.5
+            body = b''.join(bytes([0x80 | j, 1, j + 1]) for j in order)
+            head = 0x31 if cls is univ.Set else 0x30
+            data = bytes([head, 0x80]) + body + b'\x00\x00' if indef else bytes([head, len(body)]) + body
+            req = [j for j in range(k) if kinds_[j] == 'r']
+
+            def real_rs():
+                bdec.decode(data, asn1Spec=spec)
+                return [0]
+            cmp_('requiredSeen', 'KREQSEEN %d %d %s' % (indef, len(req), ' '.join(map(str, req + order))), _py(real_rs))
     rep.count('kernel_correspondence', done)
     return done + nonlocal_done[0]
 
